@@ -154,7 +154,13 @@ Unit381 == [px |-> 381, pt |-> 508, pc |-> 6096, cm |-> 14400, mm |-> 1440, q |-
 UnitIn381 == 36576
 
 EmitScn == phase = "done" =>
-  IF Mode = "units" THEN PrintT(ToJson([mode |-> "units", scn |-> kinds, fs381 |-> LeafFs(kinds), want381 |-> Width381(kinds)]))
+  IF Mode = "units" THEN PrintT(ToJson([mode |-> "units", scn |-> kinds, fs381 |-> LeafFs(kinds), mid381 |-> MidFs(kinds), root381 |-> RootFs(kinds),
+                                           want381 |-> Width381(kinds),
+                                           \* the same declaration matched by the middle element computes against ITS font size
+                                           wantmid381 |-> CASE kinds.unit = "em" -> kinds.n * MidFs(kinds) [] kinds.unit = "rem" -> kinds.n * RootFs(kinds)
+                                                            [] OTHER -> kinds.n * Abs381(kinds.unit),
+                                           \* line-height: 150% on the middle element is absolute: the leaf inherits the length, not the percentage
+                                           lh381 |-> (3 * MidFs(kinds)) \div 2]))
   ELSE IF Mode = "weights" THEN PrintT(ToJson([mode |-> "weights", scn |-> kinds, weight |-> LeafWeight(kinds)]))
   ELSE PrintT(ToJson([mode |-> "kinds", kinds |-> kinds, inh |-> inh, want |-> [n \in Nodes |-> Computed(kinds, inh, n)]]))
 \* the CSS property index data, printed once
